@@ -226,7 +226,65 @@ def one_case(ctx, rng, length):
     return line, obs, cj, ops
 
 
+def check_cache_helpers(ctx):
+    """`arim.helpers.Cache` is a dict that counts hits and misses; `NoCache` looks like one and retains nothing (an object
+    built with `use_cache=False` relies on that to be the uncached reference of this property)"""
+    import warnings
+
+    from arim.helpers import Cache, NoCache
+
+    rng = ctx.rng
+    for it in range(10 * ctx.scale):
+        c, ref, hits, misses = Cache(), {}, 0, 0
+        n = NoCache()
+        ops = []
+        for _ in range(int(rng.integers(5, 40))):
+            k = ("m" + str(int(rng.integers(0, 4))), int(rng.integers(0, 3)))
+            u = rng.random()
+            ops.append((k, round(float(u), 2)))
+            if u < 0.35:
+                v = float(rng.normal())
+                with warnings.catch_warnings():
+                    warnings.simplefilter("ignore")     # re-assigning a cached key warns; the new value is stored
+                    c[k] = v
+                n[k] = v
+                ref[k] = v
+            elif u < 0.7:
+                try:
+                    got = c[k]
+                    hits += 1
+                    ok = k in ref and got == ref[k]
+                except KeyError:
+                    misses += 1
+                    ok = k not in ref
+                if not ok:
+                    ctx.violate("Cache[key] does not return the stored value / does not raise KeyError for a key never stored", {"op": "cache_helper", "ops": ops}, {"kind": "cache_helper"})
+                    break
+            elif u < 0.9:
+                got = c.get(k, None)
+                if got is None:
+                    misses += 1
+                else:
+                    hits += 1
+                if got != ref.get(k):
+                    ctx.violate("Cache.get does not return the stored value", {"op": "cache_helper", "ops": ops}, {"kind": "cache_helper"})
+                    break
+            else:
+                c.clear()
+                ref, hits, misses = {}, 0, 0
+            if (len(c), c.hits, c.misses) != (len(ref), hits, misses) or set(c.keys()) != set(ref):
+                ctx.violate(f"Cache bookkeeping (len, hits, misses) = {(len(c), c.hits, c.misses)} after a history whose true counts are {(len(ref), hits, misses)}",
+                            {"op": "cache_helper", "ops": ops}, {"kind": "cache_helper"})
+                break
+            if len(n) != 0 or k in n:
+                ctx.violate("NoCache retained a value", {"op": "cache_helper", "ops": ops}, {"kind": "cache_helper"})
+                break
+        ctx.case(("cachehelper", it), True)
+    ctx.count("cache_helper_histories", 10 * ctx.scale)
+
+
 def run(ctx):
+    check_cache_helpers(ctx)
     rng = ctx.rng
     ctx.rule = ("random histories (length <= 40 quick, <= 200 thorough) over the 17 query methods with raw indices in [-n-1, n], both is_final values, "
                 "clear_intermediate_results, clear_all_results, precompute blocks, beamspread / reverse beamspread / transmission-reflection calls, "
